@@ -214,12 +214,14 @@ package bbolt
 //@ func (*Bucket).rebalance
 //@   opaque
 //@   ensures b.tx == old(b.tx) && txframe(b.tx) && b.tx.meta.pgid == old(b.tx.meta.pgid) && unsynced == old(unsynced) && nwrites == old(nwrites)
+//@   ensures b.tx.meta.freelist == old(b.tx.meta.freelist)
 //@   ensures b.tx.db.datasz == old(b.tx.db.datasz) && (old(mapok(b.tx)) ==> mapok(b.tx))
 
 //@ func (*Bucket).spill
 //@   opaque
 //@   returns (err)
 //@   ensures b.tx == old(b.tx) && txframe(b.tx) && unsynced == old(unsynced) && nwrites == old(nwrites) && batchsame()
+//@   ensures b.tx.meta.freelist == old(b.tx.meta.freelist)
 //@   ensures b.tx.meta.pgid >= old(b.tx.meta.pgid) && b.tx.meta.pgid <= old(b.tx.meta.pgid) + 4294967296
 //@   ensures (b.tx.meta.pgid + 1) * b.tx.db.pageSize <= b.tx.db.datasz && b.tx.db.datasz >= 0 && b.tx.db.datasz <= common.MaxMapSize
 //@   ensures old(mapok(b.tx)) ==> mapok(b.tx)
@@ -276,7 +278,8 @@ package bbolt
 
 //@ func (*Tx).commitFreelist
 //@   returns (err)
-//@   props C08 C07 C01
+//@   props C08 C07 C01 C06
+//@   ensures [fresh] err == nil ==> callstotal("(*DB).allocate") == old(callstotal("(*DB).allocate")) + 1 && lastret("(*DB).allocate", 0) != nil && tx.meta.freelist == lastret("(*DB).allocate", 0).id && lastarg("freelist.Interface.Write", 1) == lastret("(*DB).allocate", 0)
 //@   requires tx.db != nil && tx.writable && tx.meta != nil && tx.db.freelist != nil && tx.db.rwlock.held && tx.db.pageSize >= 512 && tx.db.pageSize <= 16777216 && tx.db.rwtx == tx && (tx.meta.pgid + 1) * tx.db.pageSize <= tx.db.datasz && tx.db.datasz <= common.MaxMapSize
 //@   requires (tx.meta.pgid + 4294967296) * tx.db.pageSize <= 2305843009213693952 && tx.db.AllocSize >= 0 && tx.db.AllocSize <= 2305843009213693952 && tx.db.datasz >= 0 && tx.db.MaxSize >= 0
 //@   requires mapok(tx)
@@ -326,6 +329,8 @@ package bbolt
 //@   ensures [norollback] err == nil ==> calls("(*Tx).rollback", tx) == old(calls("(*Tx).rollback", tx)) && calls("(*Tx).nonPhysicalRollback", tx) == old(calls("(*Tx).nonPhysicalRollback", tx))
 //@   ensures [nonphys] calls("(*Tx).nonPhysicalRollback", tx) == old(calls("(*Tx).nonPhysicalRollback", tx))
 //@   ensures [durable] old(tx.db) != nil && old(tx.writable) && err == nil && !old(tx.db.NoSync) ==> unsynced == 0
+//@   ensures [oldfreelistfreed] old(tx.db) != nil && old(tx.writable) && err == nil && old(tx.meta.freelist) != common.PgidNoFreelist ==> lastarg("freelist.Interface.Free", 2) == dbpage(old(tx.db), old(tx.meta.freelist))
+//@   ensures [oldfreelistfreedby] old(tx.db) != nil && old(tx.writable) && err == nil && old(tx.meta.freelist) != common.PgidNoFreelist ==> lastarg("freelist.Interface.Free", 1) == old(tx.meta.txid)
 //@   ensures [metalast] err == nil ==> lastwriteoff == (old(tx.meta.txid) % 2) * old(tx.db.pageSize) && calls("(*Tx).writeMeta", tx) == old(calls("(*Tx).writeMeta", tx)) + 1 && calls("(*Tx).write", tx) == old(calls("(*Tx).write", tx)) + 1
 //@   ensures [nometaonerror] err != nil && calls("(*Tx).writeMeta", tx) == old(calls("(*Tx).writeMeta", tx)) ==> nwrites == old(nwrites) || calls("(*Tx).write", tx) == old(calls("(*Tx).write", tx)) + 1
 
@@ -423,7 +428,7 @@ package bbolt
 //@   loop 0 invariant failIdx == old(failIdx) && b.calls == old(b.calls)
 
 //@ func (*batch).run
-//@   props C16
+//@   props C16 C03
 //@   requires b != nil && b.db != nil && b.timer != nil && canbegin(b.db) && !b.db.batchMu.held
 //@   ensures [batchmu] !b.db.batchMu.held
 //@   ensures [drained] true
@@ -460,12 +465,37 @@ package bbolt
 
 //@ func verifyKeyOrder
 //@   props C19 C07
-//@   callback ensures true
+//@   callback pure keyToString
+//@   modifies nothing
 //@   ensures [first] index == 0 && old(previousKey != nil && cmp(previousKey, key) > 0) ==> sent(ch) > old(sent(ch))
 //@   ensures [less] index > 0 && old(cmp(previousKey, key)) > 0 ==> sent(ch) > old(sent(ch))
 //@   ensures [equal] index > 0 && old(cmp(previousKey, key)) == 0 ==> sent(ch) > old(sent(ch))
 //@   ensures [max] old(maxKeyOpen != nil && cmp(key, maxKeyOpen) >= 0) ==> sent(ch) > old(sent(ch))
 //@   ensures [clean] !(index == 0 && old(previousKey != nil && cmp(previousKey, key) > 0)) && !(index > 0 && old(cmp(previousKey, key)) >= 0) && !old(maxKeyOpen != nil && cmp(key, maxKeyOpen) >= 0) ==> sent(ch) == old(sent(ch))
+
+// The key-order walk: every element is handed to verifyKeyOrder with its own key, index and the inherited
+// upper bound; every child of a branch page is entered with ITS OWN separator key as closed lower bound and
+// the next separator (the inherited bound for the last child) as open upper bound. The per-iteration facts are
+// loop invariants over the ghost call log (lastarg = arguments of the most recently returned call), so they
+// are proved for every iteration.
+//@ func (*Tx).recursivelyCheckPageKeyOrderInternal
+//@   returns (maxKeyInSubtree)
+//@   props C19 C07
+//@   requires tx != nil && tx.db != nil && tx.meta != nil
+//@   modifies elems(pagesStack)
+//@   callsite verifyKeyOrder requires [element] a_index == i && ((bytesval(a_key) == bkeyof(brelem(p, i)) && a_pgId == brelem(p, i).pgid) || (bytesval(a_key) == lkeyof(lfelem(p, i)) && a_pgId == pgId))
+//@   callsite verifyKeyOrder requires [bounds] (a_previousKey == nil) == (runningMin == nil) && (runningMin != nil ==> bytesval(a_previousKey) == bytesval(runningMin)) && (a_maxKeyOpen == nil) == (maxKeyOpen == nil) && (maxKeyOpen != nil ==> bytesval(a_maxKeyOpen) == bytesval(maxKeyOpen))
+//@   loop 0 invariant [page] p == entry(p) && p.count == entry(p.count) && p.flags == entry(p.flags)
+//@   loop 0 invariant [descend] rangeindex >= 0 ==> lastarg("(*Tx).recursivelyCheckPageKeyOrderInternal", 1) == brelem(p, rangeindex).pgid && !lastargnil("(*Tx).recursivelyCheckPageKeyOrderInternal", 2) && lastarg("(*Tx).recursivelyCheckPageKeyOrderInternal", 2) == bkeyof(brelem(p, rangeindex))
+//@   loop 0 invariant [upper] rangeindex >= 0 && rangeindex < p.count - 1 ==> !lastargnil("(*Tx).recursivelyCheckPageKeyOrderInternal", 3) && lastarg("(*Tx).recursivelyCheckPageKeyOrderInternal", 3) == bkeyof(brelem(p, rangeindex + 1))
+//@   loop 0 invariant [upperlast] rangeindex >= 0 && rangeindex == p.count - 1 ==> lastargnil("(*Tx).recursivelyCheckPageKeyOrderInternal", 3) == old(maxKeyOpen == nil) && (old(maxKeyOpen != nil) ==> lastarg("(*Tx).recursivelyCheckPageKeyOrderInternal", 3) == old(bytesval(maxKeyOpen)))
+//@   loop 1 invariant [page] p == entry(p) && p.count == entry(p.count)
+//@   loop 1 invariant [element] rangeindex >= 0 ==> lastarg("verifyKeyOrder", 0) == pgId && lastarg("verifyKeyOrder", 2) == rangeindex && lastarg("verifyKeyOrder", 3) == lkeyof(lfelem(p, rangeindex)) && lastargnil("verifyKeyOrder", 5) == old(maxKeyOpen == nil) && (old(maxKeyOpen != nil) ==> lastarg("verifyKeyOrder", 5) == old(bytesval(maxKeyOpen)))
+//@   loop 1 invariant [previous] rangeindex >= 1 ==> !lastargnil("verifyKeyOrder", 4) && lastarg("verifyKeyOrder", 4) == lkeyof(lfelem(p, rangeindex - 1))
+//@   loop 1 invariant [first] rangeindex == 0 ==> lastargnil("verifyKeyOrder", 4) == old(minKeyClosed == nil) && (old(minKeyClosed != nil) ==> lastarg("verifyKeyOrder", 4) == old(bytesval(minKeyClosed)))
+//@   loop 1 invariant [running] rangeindex >= 0 ==> runningMin != nil && bytesval(runningMin) == lkeyof(lfelem(p, rangeindex))
+//@   loop 1 invariant [running0] rangeindex == 0-1 ==> (runningMin == nil) == old(minKeyClosed == nil) && (old(minKeyClosed != nil) ==> bytesval(runningMin) == old(bytesval(minKeyClosed)))
+//@   loop 1 invariant [count] callstotal("verifyKeyOrder") == entry(callstotal("verifyKeyOrder")) + rangeindex + 1
 
 // ---------------------------------------------------------------- C17 / C12: open, lock, initialise, close
 
@@ -610,6 +640,9 @@ package bbolt
 
 
 //@ F [mmap.prot] props C17 : constarg bbolt.mmap calls golang.org/x/sys/unix.Mmap arg 3 == 1
+// the freelist page id in a meta is only ever set by the commit path (and by initialisation / surgery), which is what
+// lets the opaque tree contracts promise that they leave tx.meta.freelist alone
+//@ F [setfreelist.callers] props C06 C07 : callers common.(*Meta).SetFreelist subset bbolt.(*Tx).Commit, bbolt.(*Tx).commitFreelist, bbolt.(*DB).init, command.surgeryMetaUpdateFunc, surgeon.clearFreelistInMetaPage, command.(*surgeryMetaUpdateOptions).Run, command.surgeryMetaUpdateFunc$1
 //@ F [truncate.callers] props C17 C18 : callers os.(*File).Truncate subset bbolt.(*DB).grow
 //@ F [writeat.callers] props C17 C06 C01 : callers struct_writeAt.writeAt subset bbolt.(*Tx).write, bbolt.(*Tx).writeMeta, bbolt.(*DB).init
 //@ F [flock.callers] props C17 : callers bbolt.flock subset bbolt.Open
@@ -622,6 +655,15 @@ package bbolt
 //@   requires tx.meta != nil && tx.db != nil
 //@   ensures result == wrapint(wrapint(tx.meta.pgid) * tx.db.pageSize)
 //@   modifies nothing
+
+// sameFile compares the two OPEN HANDLES (fstat on each), never the path: the path may have been replaced since
+// the database was opened, and WriteTo must notice that.
+//@ func sameFile
+//@   returns (same, err)
+//@   props C14
+//@   requires f1 != nil && f2 != nil
+//@   ensures [handles] err == nil ==> calls("os.(*File).Stat", f1) >= old(calls("os.(*File).Stat", f1)) + 1 && calls("os.(*File).Stat", f2) >= old(calls("os.(*File).Stat", f2)) + 1
+//@   ensures [nopath] callstotal("os.Stat") == old(callstotal("os.Stat"))
 
 //@ func (*Tx).WriteTo
 //@   returns (n, err)
@@ -652,15 +694,41 @@ package bbolt
 
 //@ func (*Cursor).node
 //@   opaque
-//@   ensures result != nil
+//@   ensures result != nil && result.bucket == c.bucket && sortednode(result)
 //@   modifies all("elemRef.node"), all("elemRef.page"), all("node.children"), all("node.inodes"), all("node.key"), all("node.pgid"), all("node.isLeaf"), all("node.parent"), all("node.bucket"), all("node.unbalanced"), all("node.spilled"), allmaps("common.Pgid", "*bbolt.node"), all("Bucket.rootNode"), all("TxStats.NodeCount"), all("Inode.key"), all("Inode.value"), all("Inode.flags"), all("Inode.pgid")
 
+// A materialised node is a sorted map from keys to (flags, value, pgid): put and del are verified against that
+// view positionally (strict order makes positions unique): entries below the key keep their index, entries above
+// it move by the change of length, the slot of the key holds exactly the caller's bytes.
+//@ pure func sortednode(n *node) bool = forall i int, j int {n.inodes[i].key, n.inodes[j].key} :: 0 <= i && i < j && j < len(n.inodes) ==> cmp(n.inodes[i].key, n.inodes[j].key) < 0
+//@ pure func sameinode(a *common.Inode, b *common.Inode) bool = a.flags == b.flags && a.pgid == b.pgid && bytesval(a.key) == bytesval(b.key) && bytesval(a.value) == bytesval(b.value)
+
 //@ func (*node).put
-//@   opaque
+//@   props C04
+//@   requires n != nil && n.bucket != nil && n.bucket.tx != nil && n.bucket.tx.meta != nil && sortednode(n)
+//@   panics when pgId >= n.bucket.tx.meta.pgid || len(oldKey) <= 0 || len(newKey) <= 0
+//@   ensures [len] len(n.inodes) == old(len(n.inodes)) || len(n.inodes) == old(len(n.inodes)) + 1
+//@   ensures [slot] exists j int :: 0 <= j && j < len(n.inodes) && n.inodes[j].flags == flags && n.inodes[j].pgid == pgId && bytesval(n.inodes[j].key) == bytesval(newKey) && bytesval(n.inodes[j].value) == bytesval(value) && (forall i int :: 0 <= i && i < old(len(n.inodes)) && old(cmp(n.inodes[i].key, oldKey)) < 0 ==> i < j) && (forall i int :: 0 <= i && i < old(len(n.inodes)) && old(cmp(n.inodes[i].key, oldKey)) > 0 ==> i + (len(n.inodes) - old(len(n.inodes))) > j)
+//@   witness [slot] j := index
+//@   ensures [below] forall i int :: 0 <= i && i < old(len(n.inodes)) && old(cmp(n.inodes[i].key, oldKey)) < 0 ==> n.inodes[i].flags == old(n.inodes[i].flags) && n.inodes[i].pgid == old(n.inodes[i].pgid) && bytesval(n.inodes[i].key) == old(bytesval(n.inodes[i].key)) && bytesval(n.inodes[i].value) == old(bytesval(n.inodes[i].value))
+//@   ensures [above] forall i int :: 0 <= i && i < old(len(n.inodes)) && old(cmp(n.inodes[i].key, oldKey)) > 0 ==> (let d := len(n.inodes) - old(len(n.inodes)) in n.inodes[i+d].flags == old(n.inodes[i].flags) && n.inodes[i+d].pgid == old(n.inodes[i].pgid) && bytesval(n.inodes[i+d].key) == old(bytesval(n.inodes[i].key)) && bytesval(n.inodes[i+d].value) == old(bytesval(n.inodes[i].value)))
+//@   ensures [replaced] len(n.inodes) == old(len(n.inodes)) ==> old(exists i int :: 0 <= i && i < len(n.inodes) && cmp(n.inodes[i].key, oldKey) == 0)
+//@   ensures [inserted] len(n.inodes) == old(len(n.inodes)) + 1 ==> old(forall i int :: 0 <= i && i < len(n.inodes) ==> cmp(n.inodes[i].key, oldKey) != 0)
+//@   witness [replaced] i := index
+//@   ensures [sorted] old(bytesval(oldKey)) == old(bytesval(newKey)) ==> sortednode(n)
 //@   modifies n.inodes, all("Inode.key"), all("Inode.value"), all("Inode.flags"), all("Inode.pgid")
 
 //@ func (*node).del
-//@   opaque
+//@   props C04
+//@   requires n != nil && sortednode(n)
+//@   ensures [len] len(n.inodes) == old(len(n.inodes)) || len(n.inodes) == old(len(n.inodes)) - 1
+//@   ensures [absent] forall i int :: 0 <= i && i < len(n.inodes) ==> cmp(n.inodes[i].key, key) != 0
+//@   ensures [below] forall i int :: 0 <= i && i < old(len(n.inodes)) && old(cmp(n.inodes[i].key, key)) < 0 ==> n.inodes[i].flags == old(n.inodes[i].flags) && n.inodes[i].pgid == old(n.inodes[i].pgid) && bytesval(n.inodes[i].key) == old(bytesval(n.inodes[i].key)) && bytesval(n.inodes[i].value) == old(bytesval(n.inodes[i].value))
+//@   ensures [above] forall i int :: 0 <= i && i < old(len(n.inodes)) && old(cmp(n.inodes[i].key, key)) > 0 ==> (let d := len(n.inodes) - old(len(n.inodes)) in n.inodes[i+d].flags == old(n.inodes[i].flags) && n.inodes[i+d].pgid == old(n.inodes[i].pgid) && bytesval(n.inodes[i+d].key) == old(bytesval(n.inodes[i].key)) && bytesval(n.inodes[i+d].value) == old(bytesval(n.inodes[i].value)))
+//@   ensures [removed] len(n.inodes) == old(len(n.inodes)) - 1 ==> old(exists i int :: 0 <= i && i < len(n.inodes) && cmp(n.inodes[i].key, key) == 0) && n.unbalanced
+//@   witness [removed] i := index
+//@   ensures [notfound] len(n.inodes) == old(len(n.inodes)) ==> old(forall i int :: 0 <= i && i < len(n.inodes) ==> cmp(n.inodes[i].key, key) != 0) && n.unbalanced == old(n.unbalanced)
+//@   ensures [sorted] sortednode(n)
 //@   modifies n.inodes, n.unbalanced, all("Inode.key"), all("Inode.value"), all("Inode.flags"), all("Inode.pgid")
 
 //@ func (*Bucket).node
@@ -671,7 +739,8 @@ package bbolt
 //@ func (*Bucket).Put
 //@   returns (err)
 //@   props C04 C15
-//@   requires b != nil && b.tx != nil
+//@   requires b != nil && b.tx != nil && (b.tx.db != nil && b.tx.writable ==> b.tx.meta != nil && b.tx.meta.pgid >= 1)
+//@   ensures [stored] err == nil ==> (let n := lastret("(*Cursor).node", 0) in n != nil && (exists j int :: 0 <= j && j < len(n.inodes) && n.inodes[j].flags == 0 && n.inodes[j].pgid == 0 && bytesval(n.inodes[j].key) == old(bytesval(key)) && bytesval(n.inodes[j].value) == bytesval(value)) && sortednode(n))
 //@   ensures [closed] old(b.tx.db) == nil ==> err == berrors.ErrTxClosed
 //@   ensures [readonly] old(b.tx.db) != nil && !old(b.tx.writable) ==> err == berrors.ErrTxNotWritable
 //@   ensures [keyrequired] old(b.tx.db) != nil && old(b.tx.writable) && len(key) == 0 ==> err == berrors.ErrKeyRequired
@@ -690,6 +759,7 @@ package bbolt
 //@   ensures [noerrwrite] err != nil ==> callstotal("(*node).del") == old(callstotal("(*node).del")) && callstotal("(*node).put") == old(callstotal("(*node).put"))
 //@   ensures [deleted] callstotal("(*node).del") != old(callstotal("(*node).del")) ==> callstotal("(*node).del") == old(callstotal("(*node).del")) + 1 && lastarg("(*node).del", 1) == old(bytesval(key)) && err == nil
 //@   ensures [okorincompat] old(b.tx.db) != nil && old(b.tx.writable) ==> err == nil || err == berrors.ErrIncompatibleValue
+//@   ensures [gone] callstotal("(*node).del") != old(callstotal("(*node).del")) ==> (let n := lastret("(*Cursor).node", 0) in n != nil && sortednode(n) && (forall i int :: 0 <= i && i < len(n.inodes) ==> cmp(n.inodes[i].key, key) != 0))
 
 //@ func (*Bucket).SetSequence
 //@   props C04 C15
